@@ -1110,7 +1110,17 @@ class list_t(object):
             self.get_model().field_l[k].set_val(
                 ValueScalar(int(v) & (1 << self.t.width)-1))
         else:
+            if not issubclass(type(v), type(self.t)):
+                raise Exception("Attempting to assign illegal element to object array")
             self.backing_arr[k] = v
+            # The list's model must hold the model of the object
+            # that the list exposes
+            model = self.get_model()
+            fm = v.get_model()
+            model.set_field(k, fm)
+            fm.is_declared_rand = model.is_declared_rand
+            fm.rand_mode = model.is_declared_rand
+            model.name_elems()
             
     def __str__(self):
         model = self.get_model()
